@@ -25,6 +25,7 @@ def machines : List (String × Machine) := [
   ("mutex", MayVerif.Mutex.machine),
   ("rwlock", MayVerif.RwLock.machine),
   ("rwlock_reg", MayVerif.RwLock.machine),
+  ("rwlock_live", MayVerif.RwLock.machine),
   ("sem", MayVerif.Sem.machine),
   ("syncflag", MayVerif.SyncFlag.machine),
   ("mq_mpsc", MayVerif.Mpsc.machine),
